@@ -645,6 +645,11 @@ func (ss *SpecSet) ReadSpecFile(path, pkgPrefix string) error {
 				fail(rc.line, "ghost NAME TYPE [local]")
 				continue
 			}
+			if _, dup := ss.Ghosts[f[0]]; dup {
+				// ghosts are global by name: a second declaration would silently replace the first (type, `local`)
+				fail(rc.line, "ghost %s is declared twice", f[0])
+				continue
+			}
 			ss.Ghosts[f[0]] = &GhostVar{Name: f[0], Type: f[1], Local: len(f) == 3}
 		case "chanmode":
 			f := strings.Fields(rest)
